@@ -223,6 +223,7 @@ fn coordinate(prop: &dyn Prop, tier: Tier, jobs: Option<usize>, cap: Duration) -
     let replay_dir = root.join("replays").join(prop.id());
     let mut alarm = 0usize;
     let mut known_lines = vec![];
+    let mut unstable: Vec<String> = vec![];
     for v in uniq.iter() {
         let digest = format!("{:016x}", vcore::fingerprint_str(&format!("{}{}", v.signature, v.witness)));
         let _ = std::fs::create_dir_all(&replay_dir);
@@ -256,14 +257,17 @@ fn coordinate(prop: &dyn Prop, tier: Tier, jobs: Option<usize>, cap: Duration) -
         match (ok, a, b) {
             (true, _, _) => {}
             (false, a, b) => {
-                eprintln!(
-                    "MACHINERY: violation {} does not replay deterministically: first {:?}, second {:?} ({})",
+                // Not a verdict. If other violations of this run do replay, they are reported and this one is
+                // only noted (an implementation that has been broken may behave nondeterministically, e.g. pick
+                // a random block); if nothing replays, the run is a machinery failure.
+                unstable.push(format!(
+                    "violation {} does not replay deterministically: first {:?}, second {:?} ({})",
                     v.signature,
                     a,
                     b,
                     path.display()
-                );
-                return EXIT_MACHINERY;
+                ));
+                continue;
             }
         }
         if let Some(f) = findings::matching(&known, v) {
@@ -280,6 +284,17 @@ fn coordinate(prop: &dyn Prop, tier: Tier, jobs: Option<usize>, cap: Duration) -
         }
     }
 
+    if !unstable.is_empty() {
+        if alarm == 0 && known_lines.is_empty() {
+            for u in unstable.iter() {
+                eprintln!("MACHINERY: {u}");
+            }
+            return EXIT_MACHINERY;
+        }
+        for u in unstable.iter() {
+            eprintln!("note: {u}");
+        }
+    }
     let vac = prop.vacuity(tier, &r);
     let wall_s = t0.elapsed().as_secs_f64();
     let spec = EvidenceSpec {
